@@ -144,7 +144,8 @@ def document(draw):
     lazy = draw(st.sampled_from(["VLazy", "VEager"]))
     filler = draw(value_nodes(tags=("VLazy", "VEager"), max_leaves=4))
     return {"evil": ev, "pos": pos, "depth": depth, "tag": lazy, "filler": filler, "flow": draw(st.booleans()),
-            "logging": draw(st.booleans()), "merge_shape": draw(st.sampled_from(["own", "{a: 1}", "{a: 1}", "{}", "[{a: 1}]", "[]"]))}
+            "logging": draw(st.booleans()), "merge_shape": draw(st.sampled_from(["own", "{a: 1}", "{a: 1}", "{}", "[{a: 1}]", "[]"])),
+            "bystander": draw(st.sampled_from([None, None, "before", "after", "around", "section-first", "scalar-before", "scalar-after"]))}
 
 
 def wrap(node, depth, flow, in_tag=None):
@@ -219,8 +220,17 @@ def build(doc):
         else:
             extra = wrap(host, depth - 1, flow)
     sections.append(["pipeline", {"l": pipeline, "flow": False}])
+    by = doc.get("bystander")
+    if by:
+        # a harmless anchored node and an alias to it elsewhere in the document: a node reachable twice must not end or
+        # shorten whatever walk decides about the tags of the *other* nodes, whichever of them comes first
+        anchor = {"x": "&shared 7" if by.startswith("scalar") else "&shared {x: 1}"}
+        alias = {"r": "shared"}
+        items = {"before": [anchor, alias, extra], "scalar-before": [anchor, alias, extra], "after": [extra, anchor, alias],
+                 "scalar-after": [extra, anchor, alias], "around": [anchor, extra, alias], "section-first": [anchor, alias, extra]}[by]
+        extra = {"l": [i for i in items if i is not None], "flow": False}
     if extra is not None:
-        sections.append(["verifextra", extra])
+        sections.insert(0 if by == "section-first" else len(sections), ["verifextra", extra])
     if logging_node is not None:
         sections.append(["logging", logging_node])
     root = {"m": sections, "flow": False}
